@@ -6,8 +6,9 @@ package rapid
 import (
 	"bytes"
 	"context"
-	"fmt"
 	"io"
+	"net"
+	"strconv"
 	"sync"
 
 	"go.amzn.com/lambda/appctx"
@@ -70,7 +71,7 @@ func Start(ctx context.Context, s *Sandbox) (interop.RapidContext, interop.Inter
 	if err := server.Listen(); err != nil {
 		log.WithError(err).Panic("Runtime API Server failed to listen")
 	}
-	runtimeAPIAddr := fmt.Sprintf("%s:%d", server.Host(), server.Port())
+	runtimeAPIAddr := net.JoinHostPort(server.Host(), strconv.Itoa(server.Port()))
 
 	// TODO: pass this directly down to HTTP servers and handlers, instead of using
 	// global state to share the interop server implementation
